@@ -46,17 +46,26 @@ FromObs(ob) ==
 
 LastVec(m) == [s \in States |-> IF On(m) /\ m.tt[s] >= 1 /\ m.tt[s] <= Len(m.prev) THEN m.tt[s] ELSE 0]
 
-\* machine record -> the fields the executor logs, in the executor's encoding
+Has(f) == f \in Cfg.features
+
+\* machine record -> the fields the executor logs, in the executor's encoding; what an optional feature would
+\* report is blank in builds without it (C15: nothing else may depend on the feature set)
 ToObs(m) ==
     [ act |-> m.act, res |-> m.res, req |-> m.req,
       rem |-> [c \in Compos |-> IF c \in m.rem THEN 1 ELSE 0],
       oreq |-> [x \in Orthos |-> [p \in 1 .. St[OrthoHead(x)].width |-> IF p \in m.oreq[x] THEN 1 ELSE 0]],
-      q |-> m.q, prev |-> m.prev, tt |-> m.tt, last |-> LastVec(m),
-      plans |-> m.plans, pex |-> [r \in Regions |-> IF r \in m.pex THEN 1 ELSE 0],
-      succ |-> MaskOfSet(m.succ), fail |-> MaskOfSet(m.fail),
-      hst |-> [r \in Regions |-> <<m.hst[r].r, IF m.hst[r].ot THEN 1 ELSE 0>>],
-      sst |-> [r \in Regions |-> <<m.sst[r].r, IF m.sst[r].ot THEN 1 ELSE 0>>],
-      tasks |-> TotalTasks(m), hist |-> m.activity, strA |-> m.sa,
+      q |-> m.q,
+      prev |-> IF Has("TRANSITION_HISTORY") THEN m.prev ELSE <<>>,
+      tt   |-> IF Has("TRANSITION_HISTORY") THEN m.tt ELSE [s \in States |-> 0],
+      last |-> IF Has("TRANSITION_HISTORY") THEN LastVec(m) ELSE [s \in States |-> 0],
+      plans |-> IF Has("PLANS") THEN m.plans ELSE [r \in Regions |-> <<>>],
+      pex |-> [r \in Regions |-> IF Has("PLANS") /\ r \in m.pex THEN 1 ELSE 0],
+      succ |-> IF Has("PLANS") THEN MaskOfSet(m.succ) ELSE 0, fail |-> IF Has("PLANS") THEN MaskOfSet(m.fail) ELSE 0,
+      hst |-> [r \in Regions |-> IF Has("PLANS") THEN <<m.hst[r].r, IF m.hst[r].ot THEN 1 ELSE 0>> ELSE <<0, 0>>],
+      sst |-> [r \in Regions |-> IF Has("PLANS") THEN <<m.sst[r].r, IF m.sst[r].ot THEN 1 ELSE 0>> ELSE <<0, 0>>],
+      tasks |-> IF Has("PLANS") THEN TotalTasks(m) ELSE 0,
+      hist |-> IF Has("STRUCTURE_REPORT") THEN m.activity ELSE [s \in States |-> 0],
+      strA |-> IF Has("STRUCTURE_REPORT") THEN m.sa ELSE 0 - 1,
       isA |-> ActiveMask(m), isR |-> ResumeMask(m), isS |-> ResumeMask(m), sub |-> SubList(m),
       pe |-> PendEMask(m), px |-> PendXMask(m), pc |-> PendCMask(m), on |-> On(m) ]
 
@@ -136,6 +145,11 @@ Monitors(n, pre, m, rec, entered, src) ==
               Diff(n, "mon.reach", { s \in SetOfMask(pre[2].isA) : HasUser(s) },
                    { ev[i][1] : i \in { j \in 1 .. Len(ev) : ev[j][2] = ph } })
        ELSE TRUE
+    \* C02 / C04 : no requested prong, remain mark or orthogonal request bit survives a call (a stale one would steer
+    \* the next transition into that region)
+    /\ IF rec.a[1] = "del" THEN TRUE
+       ELSE IF (\A c \in Compos : post.req[c] = 0 /\ post.rem[c] = 0) /\ (\A x \in Orthos : \A p \in 1 .. Len(post.oreq[x]) : post.oreq[x][p] = 0)
+            THEN TRUE ELSE Fail(n, "mon.idle.req", <<post.req, post.rem, post.oreq>>)
     \* C13 : nothing pending between calls; isScheduled is isResumable
     /\ IF rec.a[1] = "del" THEN TRUE
        ELSE \* open finding D10: isPendingExit / isPendingChange evaluate `prong == active && prong != requested` /
@@ -166,14 +180,14 @@ Monitors(n, pre, m, rec, entered, src) ==
        ELSE TRUE
     \* C16 : the structure report mirrors isActive
     /\ IF rec.a[1] = "del" THEN TRUE
-       ELSE IF post.strA = post.isA THEN TRUE ELSE Fail(n, "mon.report", <<post.strA, post.isA>>)
+       ELSE IF post.strA = post.isA \/ ~Has("STRUCTURE_REPORT") THEN TRUE ELSE Fail(n, "mon.report", <<post.strA, post.isA>>)
 
 CheckRecord(n, pre, m, rec, entered, src) ==
     /\ IF rec.a[1] = "del" THEN TRUE
        ELSE LET e == ToObs(m) IN
             /\ \A f \in Fields : Diff(n, f, e[f], rec.post[f])
-            /\ Diff(n, "prev",         Map(m.prev, NoPay), Map(rec.post.prev, NoPay))
-            /\ Diff(n, "prev.payload", Map(m.prev, Pay),   Map(rec.post.prev, Pay))
+            /\ Diff(n, "prev",         Map(e.prev, NoPay), Map(rec.post.prev, NoPay))
+            /\ Diff(n, "prev.payload", Map(e.prev, Pay),   Map(rec.post.prev, Pay))
     /\ CheckEvents(n, m.ev, rec.ev)
     /\ Diff(n, "draws", m.draws, rec.draws)
     /\ IF rec.a[1] = "save" THEN Diff(n, "buf", Encode(m), rec.buf) ELSE TRUE
@@ -190,7 +204,7 @@ CheckRecord(n, pre, m, rec, entered, src) ==
 Agrees(m, rec) ==
     /\ m.ev = rec.ev
     /\ m.draws = rec.draws
-    /\ rec.a[1] = "del" \/ (LET e == ToObs(m) IN (\A f \in Fields : e[f] = rec.post[f]) /\ m.prev = rec.post.prev)
+    /\ rec.a[1] = "del" \/ (LET e == ToObs(m) IN (\A f \in Fields : e[f] = rec.post[f]) /\ e.prev = rec.post.prev)
 
 PostOf(rec) == IF rec.a[1] = "del" THEN BlankObs ELSE <<FALSE, rec.post>>
 
